@@ -222,3 +222,73 @@ func c13owner(c *core.Ctx, r *core.Reporter) {
 		}
 	}
 }
+
+// c13internal: the interpreter's own code calls Lisp functions by name (initialize-instance, slot-unbound,
+// no-applicable-method, ...). A lookup by bare name resolves in the package that happens to be current, so it
+// fails exactly when the user has moved to a package that does not use the defining one: before 72c4fb6 any
+// error raised after (in-package 'p2) ended the REPL with a nil dereference. The rule: every call of
+// slip.FindFunc / slip.MustFindFunc in the module with a constant name that is registered in a package other
+// than common-lisp passes that package explicitly.
+func c13internal(c *core.Ctx, r *core.Reporter) {
+	const rule = "C13.internal"
+	r.Rule(rule, "every lookup of a function by a constant name from Go code (slip.FindFunc / slip.MustFindFunc) whose name is registered in a package other than common-lisp names that package explicitly instead of relying on the current package", 4)
+	ff := c.LookupFunc("", "FindFunc")
+	mf := c.LookupFunc("", "MustFindFunc")
+	if ff == nil || mf == nil {
+		r.Undecided(rule, "slip.FindFunc", "-", "anchor does not resolve")
+		return
+	}
+	ffn, mfn := c.SSAFunc(ff), c.SSAFunc(mf)
+	seen := map[string]int{}
+	for _, fn := range c.ModuleFuncs() {
+		if fn.Pkg == nil || takesTestingT(fn) {
+			continue
+		}
+		for _, b := range fn.Blocks {
+			for _, in := range b.Instrs {
+				call, ok := in.(*ssa.Call)
+				if !ok {
+					continue
+				}
+				cal := call.Call.StaticCallee()
+				if cal != ffn && cal != mfn {
+					continue
+				}
+				cst, ok := call.Call.Args[0].(*ssa.Const)
+				if !ok || cst.Value == nil {
+					continue
+				}
+				name := ""
+				if cst.Value.Kind().String() == "String" {
+					name = cst.Value.ExactString()
+					if len(name) >= 2 {
+						name = name[1 : len(name)-1]
+					}
+				}
+				if name == "" {
+					continue
+				}
+				if c.ByName("pkg/cl", name) != nil {
+					continue // registered in common-lisp, which every package uses
+				}
+				home := "a package other than common-lisp"
+				if b2 := c.ByName("", name); b2 != nil {
+					home = core.RelPkg(b2.Pkg.PkgPath)
+				}
+				// the variadic pkgs argument: a nil slice constant when omitted
+				explicit := true
+				if len(call.Call.Args) > 1 {
+					if k, isC := call.Call.Args[1].(*ssa.Const); isC && k.IsNil() {
+						explicit = false
+					}
+				}
+				key := fmt.Sprintf("%s|%s", core.SSAName(fn), name)
+				seen[key]++
+				if seen[key] > 1 {
+					key = fmt.Sprintf("%s#%d", key, seen[key])
+				}
+				r.Decide(explicit, rule, key, c.Pos(call.Pos()), fmt.Sprintf("%q is registered in %s; the lookup names the package: %v", name, home, explicit))
+			}
+		}
+	}
+}
